@@ -141,6 +141,20 @@ def tensor_configs(ctx, rng):
                         # the weight array itself in Fortran order (elements come in both orders, see check_space)
                         spf = odl.tensor_space(shape, dtype=dt, exponent=p, weighting=np.asfortranarray(base))
                         yield 'tensor;%s;%s;array,F-ordered-weights;p=%s' % (dt, util.size_regime(int(np.prod(shape))), pclass(p)), spf, dict(desc)
+    # extended precision (no BLAS routine): a few shapes, same documented formulas
+    for dt in ('longdouble', 'clongdouble'):
+        for shape, wt, p in itertools.product([(3,), (120,), (4, 5)], ('none', 'const', 'array'), (2.0, 1.0, INF)):
+            kw = {}
+            base = 1.0
+            if wt == 'const':
+                base = 2.5
+                kw['weighting'] = base
+            elif wt == 'array':
+                base = rng.uniform(0.5, 2, size=shape)
+                kw['weighting'] = base
+            sp = odl.tensor_space(shape, dtype=dt, exponent=p, **kw)
+            yield 'tensor;%s;%s;%s;p=%s' % (dt, util.size_regime(int(np.prod(shape))), wt, pclass(p)), sp, \
+                {'kind': 'tensor', 'shape': shape, 'base': base, 'p': p, 'dtype': dt}
     # custom inner / norm / dist callables
     for dt in ('float64', 'complex128'):
         w = np.array([1.0, 2.0, 0.5, 3.0])
@@ -452,6 +466,13 @@ def rnd(sp, rng, order_flip=False):
     a = rng.normal(size=sp.shape)
     if sp.is_complex:
         a = a + 1j * rng.normal(size=sp.shape)
+    if order_flip == 'strided':
+        # neither C- nor F-contiguous: every second entry of a larger buffer (wrapped without a copy), which takes the
+        # computations off the BLAS paths
+        big = np.zeros(tuple(2 * n for n in sp.shape), dtype=sp.dtype)
+        view = big[tuple(slice(None, None, 2) for _ in sp.shape)]
+        view[...] = a.astype(sp.dtype)
+        return sp.element(view)
     order = 'F' if order_flip else 'C'
     return sp.element(np.asarray(a.astype(sp.dtype), order=order))
 
@@ -471,7 +492,7 @@ def check_space(ctx, cls, sp, model, rng):
     cfg = cls
     for rep in range(ctx.reps(2, 10)):
         x = rnd(sp, rng, order_flip=(rep % 2 == 1))
-        y = rnd(sp, rng, order_flip=(rep % 2 == 0))
+        y = rnd(sp, rng, order_flip=('strided' if rep % 2 == 1 else True))
         z = rnd(sp, rng, order_flip=(rep % 3 == 0))
         xa, ya, za = arrs(sp, x), arrs(sp, y), arrs(sp, z)
         a = complex(1.5, -0.5) if cplx else -1.7
